@@ -2061,6 +2061,10 @@ impl Connection {
             _ => unreachable!("first packet must be delivered in Handshake state"),
         }
 
+        // Record the packet number so that a duplicate of the first Initial is discarded like any
+        // other duplicate instead of being processed a second time.
+        self.spaces[SpaceId::Initial].dedup.insert(packet_number);
+
         self.on_packet_authenticated(
             now,
             SpaceId::Initial,
